@@ -128,7 +128,9 @@ func (st *State) noteFact(t *Term) {
 
 func (e *Exec) newObject(t types.Type, name string) *Object {
 	e.nobj++
-	return &Object{id: e.nobj, typ: t, name: name}
+	o := &Object{id: e.nobj, typ: t, name: name}
+	e.allObjs = append(e.allObjs, o)
+	return o
 }
 
 func (e *Exec) root(st *State, o *Object) Value {
